@@ -6,12 +6,12 @@ from ..evalprop import *
 
 PID = "C16"
 MANIFEST = {
-    "text": "Theorems about the closures obtained by loading the GENERATED text of prelude.lisp with the model reader and evaluator inside Coq: the prelude loads without error (kernel computation), and for ALL operand forms X, Y the control macros and / or / when / not, apply, throw and the catch / catch-all clauses of try expand to the documented forms, the list functions length, range, foldl, reverse, map, zip, last, init, foldr and enumerate are proved for EVERY list, + * - / for EVERY list of numbers whose intermediate results stay in the 64-bit range (sum, product, first minus the sum of the others, first divided by the product of the others; 0 / 1 / 0 / 1 for no argument, negation / reciprocal for one; foldl restated with a guarded step because the primitives can signal; the guard of - is false exactly on the open finding minus-spurious-overflow), <= >= /= for EVERY pair of numbers, append for every two lists and concat for EVERY list of lists (one level of recursion depth per list, as the premise says) - any length, any elements, and for foldl and map every function whose applications evaluate - by induction over the list through the evaluator's tail-call rules, with the result AND the fact that the loop runs at the depth it was called at (fuel linear in the length); get-property-safe (through which every catch clause reads the kind of a signal) returns for EVERY key and EVERY value what the primitive . returns and nil whenever . signals, and and / or / when / not expand to conditionals in which each operand occurs exactly where and as often as the documentation implies (each operand evaluated at most once, the second only when needed) - proved by symbolic evaluation of the macro bodies through the derived evaluator rules. A change of prelude.lisp regenerates the text and the loaded closures, so either the computed closure no longer matches the lemma about its body or the theorem fails. The list functions (map foldl foldr reverse zip length enumerate range append concat last init apply), the variadic arithmetic and comparisons are tied to their documented results by generated calls (lists of length 0..60 of mixed elements, native / closure / variadic / fixed-arity / signalling function arguments, operands with output side effects) run in the model and on the binary and checked against independent specification functions.",
-    "note": "The 'for every list' statements are theorems for length, range, foldl, reverse, map, zip, last, init, foldr, enumerate, + * - /, <= >= /=, append and concat; for apply on functions, let, block and case they are validated by the differential check and the specification monitors (lists up to 20000 elements), not proved. Trusted: Coq kernel; transcription of the evaluator; prelude text generated from the source.",
+    "text": "Theorems about the closures obtained by loading the GENERATED text of prelude.lisp with the model reader and evaluator inside Coq: the prelude loads without error (kernel computation), and for ALL operand forms X, Y the control macros and / or / when / not, apply, throw and the catch / catch-all clauses of try expand to the documented forms, let with EVERY number of bindings expands to the application of a lambda over the names to the value forms (through unzip-list, proved for every even-length list), case with EVERY number of clauses expands to nested conditionals ending in nil (foldl and foldr restated with a guard on the elements: the clause function fails on a clause that is not a list of two), the list functions length, range, foldl, reverse, map, zip, last, init, foldr and enumerate are proved for EVERY list, + * - / for EVERY list of numbers whose intermediate results stay in the 64-bit range (sum, product, first minus the sum of the others, first divided by the product of the others; 0 / 1 / 0 / 1 for no argument, negation / reciprocal for one; foldl restated with a guarded step because the primitives can signal; the guard of - is false exactly on the open finding minus-spurious-overflow), <= >= /= for EVERY pair of numbers, append for every two lists and concat for EVERY list of lists (one level of recursion depth per list, as the premise says) - any length, any elements, and for foldl and map every function whose applications evaluate - by induction over the list through the evaluator's tail-call rules, with the result AND the fact that the loop runs at the depth it was called at (fuel linear in the length); get-property-safe (through which every catch clause reads the kind of a signal) returns for EVERY key and EVERY value what the primitive . returns and nil whenever . signals, and and / or / when / not expand to conditionals in which each operand occurs exactly where and as often as the documentation implies (each operand evaluated at most once, the second only when needed) - proved by symbolic evaluation of the macro bodies through the derived evaluator rules. A change of prelude.lisp regenerates the text and the loaded closures, so either the computed closure no longer matches the lemma about its body or the theorem fails. The list functions (map foldl foldr reverse zip length enumerate range append concat last init apply), the variadic arithmetic and comparisons are tied to their documented results by generated calls (lists of length 0..60 of mixed elements, native / closure / variadic / fixed-arity / signalling function arguments, operands with output side effects) run in the model and on the binary and checked against independent specification functions.",
+    "note": "The 'for every list' statements are theorems for length, range, foldl, reverse, map, zip, last, init, foldr, enumerate, + * - /, <= >= /=, append and concat; for apply on functions and block they are validated by the differential check and the specification monitors (lists up to 20000 elements), not proved. Trusted: Coq kernel; transcription of the evaluator; prelude text generated from the source.",
     "technique": "Coq symbolic evaluation of the generated prelude text: macro bodies for all operands; list functions by induction over the list through loop-level evaluator rules (result and constant depth) + kernel computation on the generated prelude + differential check against specification functions incl. lists far beyond the recursion limit",
 }
 TARGETS = ["Properties/C16.v", "Eval/PreludeState.v"]
-IMPORTS = ["Eval.EvalRules", "Eval.PreludeState", "Eval.PreludeProofs", "Eval.CatchProofs", "Eval.MacroProofs2", "Eval.LengthProofs", "Eval.RangeProofs", "Eval.FoldProofs", "Eval.MapProofs", "Eval.ZipProofs", "Eval.LastProofs", "Eval.InitProofs", "Eval.FoldrProofs", "Eval.EnumerateProofs", "Eval.SumProofs", "Eval.CompareProofs", "Eval.MinusProofs", "Eval.DivideProofs", "Eval.ConcatProofs", "Properties.C16"]
+IMPORTS = ["Eval.EvalRules", "Eval.PreludeState", "Eval.PreludeProofs", "Eval.CatchProofs", "Eval.MacroProofs2", "Eval.LengthProofs", "Eval.RangeProofs", "Eval.FoldProofs", "Eval.MapProofs", "Eval.ZipProofs", "Eval.LastProofs", "Eval.InitProofs", "Eval.FoldrProofs", "Eval.EnumerateProofs", "Eval.SumProofs", "Eval.CompareProofs", "Eval.MinusProofs", "Eval.DivideProofs", "Eval.ConcatProofs", "Eval.UnzipProofs", "Eval.CaseProofs", "Properties.C16"]
 THEOREMS = [
     ("C16_prelude_loads", "prelude_ok = true /\\ repl_ok = true /\\ debugger_ok = true"),
     ("C16_and_expansion", "forall X Y, macro_expands_to (s \"and\") [X; Y] (vec_to_list [vsym \"if\"; X; Y; nil_value])"),
@@ -49,6 +49,10 @@ THEOREMS = [
     ("C16_minus_divide_spec", "(forall z, minus_spec [z] = (- z)%Z) /\\ minus_spec [] = 0%Z /\\ divide_spec [] = 1%Z /\\ (forall z r rs, minus_spec (z :: r :: rs) = (z - fold_left Z.add (r :: rs) 0)%Z) /\\ (forall z r rs, divide_spec (z :: r :: rs) = Z.quot z (fold_left Z.mul (r :: rs) 1%Z)) /\\ (forall z, divide_spec [z] = Z.quot 1 z) /\\ minus_ok [0; 9223372036854775807; 1]%Z = false /\\ divide_ok [1; 0]%Z = false /\\ divide_ok [100; 5; 2]%Z = true"),
     ("C16_append", "forall f st a b la lb env d, list_to_vec a = Some la -> list_to_vec b = Some lb -> call_native (S f) st (s \"append\") [a; b] env d = (st, ROk (vec_to_list (la ++ lb)))"),
     ("C16_concat", "forall vals ls st d, Forall2 (fun v l => list_to_vec v = Some l) vals ls -> has_prelude st -> (d + N.of_nat (List.length vals) + 3 <= MAXD)%N -> exists fuel st' r, eval_loop fuel st co_body (co_env (vec_to_list vals)) pm d = (st', ROk r) /\\ has_prelude st' /\\ list_to_vec r = Some (List.concat ls)"),
+    ("C16_unzip_list", "forall tl ps d st, is_nil tl = true -> (d + N.of_nat (List.length ps) + 5 <= MAXD)%N -> has_prelude st -> exists fuel st', eval_loop fuel st uz_body (uz_env (flat ps tl)) pm d = (st', ROk (uzres ps)) /\\ has_prelude st'"),
+    ("C16_let_expansion", "forall ps B, macro_expands_within (N.of_nat (List.length ps) + 8) (s \"let\") [flat ps VNil; B] (VCons (vec_to_list [vsym \"lambda\"; vec_to_list (map fst ps); B]) (vec_to_list (map snd ps)))"),
+    ("C16_case_expansion", "forall cls, Forall clause cls -> macro_expands_within 6 (s \"case\") cls (nested_ifs cls)"),
+    ("C16_case_shape", "(forall x r, nested_ifs (x :: r) = vec_to_list [cs_if; cond_of x; value_of x; nested_ifs r]) /\\ nested_ifs [] = nil_value /\\ getv cs_if = VSym (Named (s \"if\")) /\\ (forall c v r, clause (VCons c (VCons v r)) /\\ cond_of (VCons c (VCons v r)) = c /\\ value_of (VCons c (VCons v r)) = v)"),
 ]
 
 def lst(xs):
